@@ -43,7 +43,7 @@ VALUES: t.List[t.Tuple[str, t.Any]] = [
     ('none', None),
     ('list', []), ('list', [5]), ('list', ['x', 'y']), ('list', [[1]]),
     ('tuple', ()), ('tuple', (5,)), ('tuple', ('x', 'y')),
-    ('seq', MySeq([5])), ('seq', MySeq(['x', 'y'])),
+    ('seq', MySeq([5])), ('seq', MySeq(['x', 'y'])), ('list', ['x', 5]), ('list', ['x', 'y', 5]), ('tuple', ('x', '5')),
     ('dict', {}), ('dict', {'0': 5}), ('dict', {'x': 5}),
     ('map', MyMap({'x': 5})),
 ]
@@ -55,6 +55,13 @@ _CLS_BOTH = ('cls', {'name': 'C02Both', 'fields': [{'name': 'x', 'type': S('int'
 _CLS_TUPLE = ('cls', {'name': 'C02Tuple', 'fields': [{'name': 'a', 'type': S('str')}, {'name': 'b', 'type': S('str')}], 'opts': {'in_format': ['tuple']}})
 _CLS_TUPLE_ANY = ('cls', {'name': 'C02TupleAny', 'fields': [{'name': 'a', 'type': S('any')}, {'name': 'b', 'type': S('any'), 'default': ['value', 0]}],
                           'opts': {'in_format': ['tuple', 'struct']}})
+
+_CLS_TUPLE_NONINIT = ('cls', {'name': 'C02TupleNonInit', 'fields': [
+    {'name': 'a', 'type': S('str')}, {'name': 'slot', 'type': S('str'), 'init': False, 'exclude': True, 'default': ['value', 'K']},
+    {'name': 'n', 'type': S('int')}], 'opts': {'in_format': ['tuple', 'struct']}})
+_CLS_TUPLE_NONINIT1 = ('cls', {'name': 'C02TupleNonInit1', 'fields': [
+    {'name': 'slot', 'type': S('str'), 'init': False, 'exclude': True, 'default': ['value', 'K']},
+    {'name': 'n', 'type': S('int')}], 'opts': {'in_format': ['tuple']}})
 
 # (name, spec, admitted value kinds)
 TARGETS: t.List[t.Tuple[str, t.Any, t.Set[str]]] = [
@@ -80,6 +87,8 @@ TARGETS: t.List[t.Tuple[str, t.Any, t.Set[str]]] = [
     ("{'x': int}", ('struct', (('x', S('int')),)), MAPK), ('(int,)', ('tup', 'lit', (S('int'),)), SEQK), ('(str, str)', ('tup', 'lit', (S('str'), S('str'))), SEQK),
     ('dataclass[struct]', _CLS_STRUCT, MAPK), ('dataclass[struct+tuple]', _CLS_BOTH, SEQK | MAPK),
     ('dataclass[tuple](a: str, b: str)', _CLS_TUPLE, SEQK), ('dataclass[tuple+struct](a: Any, b: Any)', _CLS_TUPLE_ANY, SEQK | MAPK),
+    ('dataclass[tuple+struct](a: str, slot: str = field(init=False), n: int)', _CLS_TUPLE_NONINIT, SEQK | MAPK),
+    ('dataclass[tuple](slot: str = field(init=False), n: int)', _CLS_TUPLE_NONINIT1, SEQK),
     ('ValueOrList[int]', ('vol', S('int')), {'int'} | SEQK), ('ndarray[int64]', ('nd', 'int64'), {'int'} | SEQK),
 ]
 LITERAL_TARGETS = {"{'x': int}", '(int,)', '(str, str)'}   # type literals: only at top level or inside other literals
